@@ -1051,6 +1051,16 @@ fn show(args: &[String]) -> std::process::ExitCode {
     std::process::ExitCode::SUCCESS
 }
 
+/// libFuzzer entry: the input bytes are the entropy tape (little-endian u32 words); same
+/// generator, same oracle as the proptest tiers.
+#[allow(dead_code)]
+pub fn fuzz_bytes(data: &[u8]) {
+    let tape = fv::tape::words_from_bytes(data, 280);
+    let case = decode_case(&mut Tape::new(&tape));
+    engine::fuzz_one("C02", &case, &render, &check);
+}
+
+#[allow(dead_code)]
 fn main() -> std::process::ExitCode {
     let args: Vec<String> = std::env::args().skip(1).collect();
     // reference-model self-checks: unit vectors and algebraic identities (harness error if they fail)
